@@ -5,6 +5,7 @@ import (
 	"strings"
 
 	"github.com/istio-ecosystem/authservice/zzverif/ev"
+	"github.com/istio-ecosystem/authservice/zzverif/schedx"
 	"github.com/istio-ecosystem/authservice/zzverif/seqx"
 	"github.com/istio-ecosystem/authservice/zzverif/world"
 )
@@ -202,6 +203,9 @@ func c05Run(run *ev.Run) {
 	for i, spec := range specs {
 		m := c05Opts(run.Tier, spec).model(c05Monitor(run, spec))
 		m.MaxDepth = depth
+		if run.Tier == "thorough" {
+			m.CheckMerges = -1 // depth 7 fills the time budget; the merge check runs in the quick tier
+		}
 		st := seqx.Explore(run, m)
 		total.States += st.States
 		total.Transitions += st.Transitions
@@ -212,12 +216,90 @@ func c05Run(run *ev.Run) {
 		}
 		run.Extra[fmt.Sprintf("levels_spec%d", i)] = st.LevelSizes
 	}
-	run.States, run.Transitions, run.Traces, run.Evals = total.States, total.Transitions, total.Histories, total.Transitions
+	// concurrent checks on one session against a provider that rotates refresh tokens
+	var scheds int64
+	scs := []schedx.Scenario{c05ConcScenario("memory", 2, 2), c05ConcScenario("redis", 2, 2)}
+	if run.Tier == "thorough" {
+		scs = []schedx.Scenario{c05ConcScenario("memory", 2, -1), c05ConcScenario("redis", 2, 3), c05ConcScenario("memory", 3, 2)}
+	}
+	for _, sc := range scs {
+		cs := schedx.Explore(run, "C05", sc)
+		scheds += cs.Schedules
+		run.Class(fmt.Sprintf("concurrent|%s|outcomes=%d", sc.Name, len(cs.Distinct)))
+		if !cs.Complete {
+			run.Cap("scenario not completed: " + sc.Name)
+		}
+	}
+	run.Extra["schedules"] = scheds
+	run.States, run.Transitions, run.Traces, run.Evals = total.States, total.Transitions+scheds, total.Histories+scheds, total.Transitions+scheds
 	run.Extra["replayed_events"] = total.Replayed
 	run.Extra["depth"] = depth
 }
 
+// c05ConcScenario: two or three checks on ONE session (expired tokens, refresh token; the provider rotates refresh
+// tokens, so only one refresh can win). A check that answers with a login redirect must have removed what was stored
+// under the id it was presented with - by its own RemoveSession call, effective, before it stores the new login state.
+func c05ConcScenario(store string, n, bound int) schedx.Scenario {
+	return schedx.Scenario{Name: fmt.Sprintf("%d checks on one expired session store=%s", n, store), Bound: bound, PanicIsViolation: true,
+		Setup: func() *schedx.Instance {
+			w := world.New(world.Spec{Store: store, Forward: true, Logout: true})
+			sid := c15Prepare(w, "expired")
+			w.Envs = make([]*world.Env, n)
+			res := make([]world.Result, n)
+			bodies := make([]func(), n)
+			for i := 0; i < n; i++ {
+				i := i
+				w.Envs[i] = &world.Env{}
+				bodies[i] = func() { res[i] = w.Do(world.Req{Path: "/", Cookie: sid}, world.Plan{}) }
+			}
+			return &schedx.Instance{Threads: bodies, Close: w.Close, Finish: func(x *schedx.Exec) (string, []schedx.Violation) {
+				var viols []schedx.Violation
+				var obs strings.Builder
+				for i, r := range res {
+					redirect := !r.OK && world.IsRedirect(r.HTTPStatus) && strings.HasPrefix(r.Location, w.Cfg.GetAuthorizationUri())
+					newSID := w.SessionFromSetCookie(r)
+					fmt.Fprintf(&obs, "t%d(ok=%v redirect=%v) ", i, r.OK, redirect)
+					if !redirect {
+						continue
+					}
+					if newSID == "" || newSID == sid {
+						viols = append(viols, schedx.Violation{Signature: "login-redirect-without-new-id concurrent", Message: fmt.Sprintf("thread %d was sent to the provider without a new session id", i)})
+						continue
+					}
+					removed := false
+					for _, c := range w.Envs[i].Calls {
+						if c.Method == "RemoveSession" && c.SID == sid && !c.Failed {
+							removed = true
+						}
+						if c.Method == "SetAuthorizationState" && c.SID == newSID && !removed {
+							viols = append(viols, schedx.Violation{Signature: "old-session-not-destroyed presented=authenticated concurrent",
+								Message: fmt.Sprintf("thread %d was sent to the provider with a new session id but never removed what was stored under the id it presented (calls: %v)", i, summarizeCalls(w.Envs[i].Calls))})
+							break
+						}
+					}
+				}
+				return obs.String(), viols
+			}}
+		}}
+}
+
 func c05ReplayFn(path string) int {
+	var srp schedx.Replay
+	if _, err := loadReplay(path, &srp); err == nil && srp.Scenario != "" {
+		for _, st := range []string{"memory", "redis"} {
+			for _, n := range []int{2, 3} {
+				if sc := c05ConcScenario(st, n, 2); sc.Name == srp.Scenario {
+					obs, v, err := schedx.ReplayOnce(sc, srp.Choices)
+					if err != nil {
+						fmt.Println(err)
+						return 2
+					}
+					return replayVerdict("C05", len(v) > 0, obs)
+				}
+			}
+		}
+		return 2
+	}
 	var rp c01Replay
 	if _, err := loadReplay(path, &rp); err != nil {
 		fmt.Println(err)
